@@ -180,6 +180,28 @@ def run(seed=0):
             if _ev(eng, got) != want:
                 return False, "SymInt op mismatch x=%d y=%d: %r vs %r" % (x, y, _ev(eng, got), want)
             n += 1
+    # symbolic regex matcher against the re module
+    import re
+    from . import symre
+
+    pats = [r"^\s*--\s+synthesis\s+translate_off\s*$", r"^\s*--\s+pragma\s+\w+\s*$", r"^\s*--\s+synthesis\s+\w+\s+\w+\s*$", r"^\s*--vhdl_comp_off\s*$",
+            r"(?!.*[A-Z]{3})[a-z][a-zA-Z0-9]*", r"(?:[a-z])+(?:[a-z0-9])*((?:[A-Z])+(?:[a-z0-9])+)*([A-Z])?", r"(?!.*[A-Z]{3})[A-Z][a-z0-9]*(?:_[A-Z0-9][a-z0-9]*)*",
+            r"((?:[A-Z])+(?:[a-z0-9])+)+([A-Z]*)?", r"a|bc", r"[^ab]+x?", r"\d{1,2}\.\d*", r""]
+    words = ["--", " ", "\t", "synthesis", "translate_off", "pragma", "x", "A", "Bc", "ABC", "a1", "_", "-- ", "9.", "--vhdl_comp_off", "aB", "b", "c"]
+    for pat in pats:
+        cp = re.compile(pat)
+        for _ in range(8):
+            txt = "".join(rnd.choice(words) for _ in range(rnd.randint(0, 4)))
+            for mode in ("match", "fullmatch", "search"):
+                eng = Pinned()
+                eng.start_path()
+                st = _sym(eng, "s", txt)
+                want = getattr(cp, mode)(txt) is not None
+                got = symre.formula(cp, mode, st)
+                got = got if isinstance(got, bool) else z3.is_true(eng.val(got))
+                if got != want:
+                    return False, "regex %r.%s(%r): symbolic %r, re module %r" % (pat, mode, txt, got, want)
+                n += 1
     # (iii) the hook is the identity on concrete values: tokenizer on sample lines, instrumented vs builtin semantics
     try:
         import sys
